@@ -6,9 +6,10 @@ import check
 from props import c05
 
 GEN = ['tables', 'hkl', 't54']
-LEAN_MODULES = ['XfabVerif.Proofs.C06', 'XfabVerif.Proofs.C06T54']
+LEAN_MODULES = ['XfabVerif.Proofs.C06', 'XfabVerif.Proofs.C06T54', 'XfabVerif.Proofs.C05Final']
 EXTRA_OBLIGATION_FILES = ['XfabVerif/Gen/T54/V%d.lean' % k for k in range(14)] + ['XfabVerif/Gen/T54/All.lean']
-AUDIT_FILES = ['XfabVerif/Lemmas/T54.lean', 'XfabVerif/Lemmas/T54Nodup.lean']
+AUDIT_FILES = ['XfabVerif/Lemmas/T54.lean', 'XfabVerif/Lemmas/T54Nodup.lean', 'XfabVerif/Lemmas/T53.lean', 'XfabVerif/Lemmas/T53Term.lean',
+               'XfabVerif/Lemmas/ConformQ.lean', 'XfabVerif/Lemmas/ExtInv.lean']
 # definitions the hand-written model mirrors (see harness/pins.py): a source change breaks the tie
 PINS = ['xfab/tools.py:genhkl_base', 'xfab/laue.py:genhkl_base', 'xfab/tools.py:genhkl_unique', 'xfab/laue.py:genhkl_unique', 'xfab/tools.py:genhkl_all', 'xfab/laue.py:genhkl_all']
 LEAN_DRIVER_MODULES = ['XfabVerif.Model.Hkl']
